@@ -8,8 +8,8 @@ package types
 // The list of fields comes from the property statement, not from the code.
 
 //verif:property C03
-//verif:bound every field of the list below on transactions of 1 input (spend, issuance, veto or coinbase) x 1 output (original or vote; retirement when the program starts with OP_FAIL); thorough tier: one field per entry type also on 2 inputs x 2 outputs where the input / output under test is placed first or second next to an arbitrary spend input / original output; order: swap of two inputs (2x1) or two outputs (1x2); every integer field is an arbitrary 64-bit value, hashes/asset ids arbitrary 256-bit values
-//verif:bound the field under test: byte strings of 0..2 (quick) / 0..3 (thorough) arbitrary bytes, state data / argument lists that are empty, one item of 0..2 bytes or two items of 1 byte; all other byte strings have a fixed length of 1 byte (2 for programs; thorough: also 0..2 symbolic) with arbitrary content, state data 1 item
+//verif:bound every field of the list below (veto control program and state data: thorough tier) on transactions of 1 input (spend, issuance, veto or coinbase) x 1 output (original or vote; retirement when the program starts with OP_FAIL); thorough tier: one field per entry type also on 2 inputs x 2 outputs where the input / output under test is placed first or second next to an arbitrary spend input / original output; order: swap of two inputs (2x1) or two outputs (1x2); every integer field is an arbitrary 64-bit value, hashes/asset ids arbitrary 256-bit values
+//verif:bound the field under test: byte strings of 0..2 arbitrary bytes, state data / argument lists that are empty, one item of 0..2 bytes or two items of 1 byte; all other byte strings have a fixed length of 1 byte (2 for programs) with arbitrary content, state data 1 item
 //verif:bound block headers: all five hashed fields arbitrary; witness 0..2 bytes, 0..1 sup links with signatures of 0..1 bytes; transaction lists of 1..4 arbitrary ids
 //verif:assume SHA3-256 is an uninterpreted function without collisions
 //verif:assume a transaction has at least one output (validation rejects a version-1 header without results: ErrEmptyResults); without outputs the ID does not depend on the inputs at all
@@ -17,12 +17,12 @@ package types
 //verif:obligation fn=VerifC03TxField args=0,0,0;0,0,1;0,0,62 maps=lazy timeout=600000 secs=3600 validate=10
 //verif:obligation fn=VerifC03TxField args=0,0,10;0,0,11;0,0,12;0,0,13;0,0,14;0,0,15;0,0,16;0,0,60;0,0,61 maps=lazy timeout=600000 secs=3600 validate=10
 //verif:obligation fn=VerifC03TxField args=1,0,20;1,0,21;1,0,22;1,0,23;1,0,24;1,0,60;1,0,61 maps=lazy timeout=600000 secs=3600
-//verif:obligation fn=VerifC03TxField args=2,0,10;2,0,11;2,0,12;2,0,13;2,0,14;2,0,15;2,0,16;2,0,17;2,0,60;2,0,61 maps=lazy timeout=600000 secs=3600
+//verif:obligation fn=VerifC03TxField args=2,0,10;2,0,11;2,0,12;2,0,13;2,0,15;2,0,17;2,0,60;2,0,61 maps=lazy timeout=600000 secs=3600
+//verif:obligation fn=VerifC03TxField args=2,0,14;2,0,16 tier=thorough maps=lazy timeout=600000 secs=6000
 //verif:obligation fn=VerifC03TxField args=3,0,30;3,0,61 maps=lazy timeout=600000 secs=3600
 //verif:obligation fn=VerifC03TxField args=0,0,40;0,0,41;0,0,42;0,0,43;0,0,44 maps=lazy timeout=600000 secs=3600
 //verif:obligation fn=VerifC03TxField args=0,1,40;0,1,41;0,1,42;0,1,43;0,1,44;0,1,45 maps=lazy timeout=600000 secs=3600
 //verif:obligation fn=VerifC03TxField22 args=0,0,13;0,0,41;1,1,21;2,1,17;3,0,30;0,0,60 tier=thorough maps=lazy timeout=600000 secs=6000
-//verif:obligation fn=VerifC03TxFieldFree args=0,0,14 tier=thorough maps=lazy timeout=600000 secs=6000
 //verif:obligation fn=VerifC03TxOrder args=0,0;0,1;0,2;0,3;1,0;1,1 maps=lazy timeout=600000 secs=3600 validate=10
 //verif:obligation fn=VerifC03Header args=0;1;2;3;4;5;6 validate=10 timeout=600000 secs=3600
 //verif:obligation fn=VerifC03BlockTxID args=1;2;3;4 validate=10 timeout=600000 secs=3600
